@@ -311,6 +311,11 @@ class Implements(NameAndModuleComparisonMixin,
     # interfaces actually declared for a class
     declared = ()
 
+    # The class this specification belongs to when ``inherit`` was cleared
+    # by one of the *only* forms, so that it can still be pickled by
+    # reference (see ``__reduce__``).
+    _only_for = None
+
     # Weak cache of {class: <implements>} for super objects.
     # Created on demand. These are rare, as of 5.0 anyway. Using a class
     # level default doesn't take space in instances. Using _v_attrs would be
@@ -352,7 +357,8 @@ class Implements(NameAndModuleComparisonMixin,
         return f'classImplements({name}{declared_names})'
 
     def __reduce__(self):
-        return implementedBy, (self.inherit, )
+        cls = self.inherit if self.inherit is not None else self._only_for
+        return implementedBy, (cls, )
 
 
 def _implements_name(ob):
@@ -532,6 +538,7 @@ def classImplementsOnly(cls, *interfaces):
     # about to get rid of.
     spec.declared = ()
     spec.inherit = None
+    spec._only_for = cls
     spec.__bases__ = ()
     _classImplements_ordered(spec, interfaces, ())
 
